@@ -45,6 +45,7 @@ namespace bxdecay0 {
 
   void Er168low(i_random & prng_, event & event_, const int levelkev_)
   {
+    BXDECAY0_VERIF_SCOPE("scheme:Er168low", levelkev_);
     // double t;
     // Subroutine describes the deexcitation process in Er168 nucleus
     // after 2b-decay of Yb168 to ground and excited 0+ and 2+ levels
